@@ -43,6 +43,13 @@ func Main() {
 	case "describe":
 		describe(*prop, *tier)
 		return
+	case "dumpval":
+		ti := lookupType(*prop)
+		v := MakeValue(ti, *seed)
+		fmt.Println(DumpValue(v))
+		b, err := json.Marshal(v.Interface())
+		fmt.Println(string(b), err)
+		return
 	case "gen", "exec":
 		var p *plan.Plan
 		if *planFile != "" {
